@@ -563,7 +563,8 @@ def check_samples(payload):
     ok = 0
     mism = []
     for s in payload["samples"]:
-        if payload["obligation"].startswith("O2") or payload["obligation"] in ("O5-late-dependency", "O6-archive-prune"):
+        ob = payload["obligation"].split("@")[0]
+        if ob.startswith("O2") or ob in ("O5-late-dependency", "O6-archive-prune"):
             s = dict(s)
             s["kind"] = "run"
             w, bad = _native_case(s)
@@ -573,7 +574,7 @@ def check_samples(payload):
                 mism.append({"sample": s, "native_log": w.log, "bad": bad})
             else:
                 ok += 1
-        elif payload["obligation"] == "O1-toposort":
+        elif ob.startswith("O1"):
             r = replay({"case": s, "label": "sample"})
             if r["reproduced"]:
                 mism.append({"sample": s, "detail": r["detail"]})
